@@ -701,4 +701,114 @@ theorem atomSeg_foldl (o : Oracle) (hc : St → Cmd → St)
     rw [List.foldl_cons, hsegs, hseg]
     simp
 
+
+/-! ### dispatch with focus-free answers: the explicit trace -/
+
+def FocusFree (o : Oracle) : Prop := ∀ w e ph k, NoFocusAtoms (o.h w e ph k)
+
+theorem any_consume (l : List Atom) : l.any (· == Atom.consume) = l.contains Atom.consume := by
+  rw [List.contains_eq_any_beq]
+  congr 1
+  funext x
+  simp [atom_beq, eq_comm]
+
+theorem offer_plain (o : Oracle) (hnf : FocusFree o) (fuel : Nat) (s : St) (w : Id) (ev : Ev) (ph : Phase)
+    (hc : s.consume = false) :
+    (offer o (fuel + 1) s w ev ph).2 = (o.h w ev ph s.calls).flatten.contains .consume ∧
+    (offer o (fuel + 1) s w ev ph).1.trace = s.trace ++ (.call w ev ph :: effsOf (o.h w ev ph s.calls).flatten) ∧
+    (offer o (fuel + 1) s w ev ph).1.calls = s.calls + 1 ∧
+    (offer o (fuel + 1) s w ev ph).1.consume = false ∧
+    (offer o (fuel + 1) s w ev ph).1.focused = s.focused ∧
+    (offer o (fuel + 1) s w ev ph).1.path = s.path := by
+  have hfold := foldl_nofocus (handleCommand o fuel) o _ (hnf w ev ph s.calls)
+    { s with calls := s.calls + 1, trace := s.trace ++ [.call w ev ph] }
+  simp only [offer, handleCommand, Model.Vxfw.call, hfold]
+  simp only [hc, Bool.false_or, any_consume]
+  cases hcon : (o.h w ev ph s.calls).flatten.contains Atom.consume <;> simp [List.append_assoc]
+
+theorem capture_plain (o : Oracle) (hnf : FocusFree o) (fuel : Nat) (ev : Ev) (ws : List Id) (s : St)
+    (hc : s.consume = false) :
+    ∀ rest : List (Id × Phase),
+      let r := capturePhase o (fuel + 1) ev ws s
+      (r.2 = true → s.trace ++ specRun o.h ev s.calls ((ws.filter o.captures).map (·, Phase.capture) ++ rest) = r.1.trace) ∧
+      (r.2 = false → s.trace ++ specRun o.h ev s.calls ((ws.filter o.captures).map (·, Phase.capture) ++ rest) =
+          r.1.trace ++ specRun o.h ev r.1.calls rest ∧
+        r.1.consume = false ∧ r.1.focused = s.focused ∧ r.1.path = s.path) := by
+  induction ws generalizing s with
+  | nil => intro rest; simp [capturePhase, hc]
+  | cons w ws ih =>
+    intro rest
+    by_cases hcap : o.captures w = true
+    · obtain ⟨h2, htr, hcalls, hcons, hfoc, hpath⟩ := offer_plain o hnf fuel s w ev .capture hc
+      simp only [capturePhase, hcap, if_true, List.filter_cons, List.map_cons, List.cons_append, specRun]
+      by_cases hb : (offer o (fuel + 1) s w ev .capture).2 = true
+      · simp only [hb, if_true]
+        rw [← h2, hb]
+        simp [htr, effsOf]
+      · have hbf : (offer o (fuel + 1) s w ev .capture).2 = false := by simpa using hb
+        simp only [hbf]
+        rw [← h2, hbf]
+        have := ih (offer o (fuel + 1) s w ev .capture).1 hcons rest
+        simp only [hcalls, htr, hfoc, hpath] at this
+        simp only [Bool.false_eq_true, if_false]
+        constructor
+        · intro hfin
+          rw [← this.1 hfin]; simp [effsOf]
+        · intro hfin
+          obtain ⟨a, b, c, d⟩ := this.2 hfin
+          refine ⟨?_, b, c, d⟩
+          rw [← a]; simp [effsOf]
+    · have hcf : o.captures w = false := by simpa using hcap
+      simp only [capturePhase, hcf, List.filter_cons]
+      exact ih s hc rest
+
+theorem bubble_plain (o : Oracle) (hnf : FocusFree o) (fuel : Nat) (ev : Ev) (ws : List Id) (s : St)
+    (hc : s.consume = false) :
+    s.trace ++ specRun o.h ev s.calls (ws.map (·, Phase.bubble)) = (bubblePhase o (fuel + 1) ev ws s).trace := by
+  induction ws generalizing s with
+  | nil => simp [bubblePhase, specRun]
+  | cons w ws ih =>
+    obtain ⟨h2, htr, hcalls, hcons, hfoc, hpath⟩ := offer_plain o hnf fuel s w ev .bubble hc
+    simp only [bubblePhase, List.map_cons, specRun]
+    by_cases hb : (offer o (fuel + 1) s w ev .bubble).2 = true
+    · simp only [hb, if_true]
+      rw [← h2, hb]
+      simp [htr, effsOf]
+    · have hbf : (offer o (fuel + 1) s w ev .bubble).2 = false := by simpa using hb
+      simp only [hbf]
+      rw [← h2, hbf]
+      have := ih (offer o (fuel + 1) s w ev .bubble).1 hcons
+      simp only [hcalls, htr] at this
+      simp only [Bool.false_eq_true, if_false]
+      rw [← this]; simp [effsOf]
+
+theorem handleEvent_plain (o : Oracle) (hnf : FocusFree o) (fuel : Nat) (s : St) (ev : Ev) :
+    (handleEvent o (fuel + 1) s ev).trace =
+      s.trace ++ specRun o.h ev s.calls (route o.captures s.path s.focused) := by
+  simp only [handleEvent, dispatch, route, List.append_assoc]
+  have hc0 : ({ s with consume := false } : St).consume = false := rfl
+  have hcap := capture_plain o hnf fuel ev s.path { s with consume := false } hc0
+    ([(s.focused, Phase.target)] ++ s.path.dropLast.reverse.map (·, Phase.bubble))
+  by_cases hb : (capturePhase o (fuel + 1) ev s.path { s with consume := false }).2 = true
+  · rw [if_pos hb]; exact (hcap.1 hb).symm
+  · have hbf : (capturePhase o (fuel + 1) ev s.path { s with consume := false }).2 = false := by simpa using hb
+    rw [if_neg hb]
+    obtain ⟨a, b, c, d⟩ := hcap.2 hbf
+    generalize capturePhase o (fuel + 1) ev s.path { s with consume := false } = r at *
+    simp only at c d
+    rw [a]
+    obtain ⟨h2, htr, hcalls, hcons, hfoc, hpath⟩ := offer_plain o hnf fuel r.1 r.1.focused ev .target b
+    simp only [List.singleton_append, specRun, c]
+    rw [c] at h2 htr
+    by_cases hb2 : (offer o (fuel + 1) r.1 s.focused ev .target).2 = true
+    · rw [if_pos hb2, ← h2, hb2]
+      simp [htr, effsOf]
+    · have hbf2 : (offer o (fuel + 1) r.1 s.focused ev .target).2 = false := by simpa using hb2
+      rw [if_neg hb2, ← h2, hbf2]
+      have := bubble_plain o hnf fuel ev s.path.dropLast.reverse (offer o (fuel + 1) r.1 s.focused ev .target).1
+        (by rw [← c]; exact hcons)
+      rw [← this]
+      rw [c] at hcalls
+      simp [htr, hcalls, effsOf]
+
 end VaxisModel.Lemmas.Vxfw
